@@ -317,9 +317,21 @@ def explore(cfg, max_runs=400, max_subset=None, max_bg=None, rng=None):
         script = stack.pop()
         run = rt.run_history(cfg, script, max_subset=max_subset, max_bg=max_bg)
         runs += 1
+        for _ in range(3):
+            if not run["diverged"]:
+                break
+            # the replay of the prefix went another way (racy arrival at a decision point): the trace is kept, it is a real
+            # execution, and the script is tried again
+            for t in project(cfg, run):
+                t["script"] = [c for _, c in run["trail"]]
+                t["anomalies"] = run["anomalies"]
+                out.append(t)
+            run = rt.run_history(cfg, script, max_subset=max_subset, max_bg=max_bg)
+            runs += 1
         trail = run["trail"]
-        if [c for _, c in trail[:len(script)]] != script:
+        if run["diverged"] or [c for _, c in trail[:len(script)]] != script:
             nondet += 1
+            complete = False        # a branch of this configuration could not be reached again
         for p in range(len(script), len(trail)):
             for c in range(1, trail[p][0]):
                 stack.append([x for _, x in trail[:p]] + [c])
